@@ -71,6 +71,19 @@ def lib_error(exc):
         c.__module__ == E.__name__ for c in type(exc).__mro__)
 
 
+def raised_in(exc, name):
+    """the exception passed through a function whose qualified name is, or ends with, `name`
+    (natively: a frame of its traceback; symbolically: the functions / call-site contracts the
+    exception propagated out of).  Used to say WHERE a permitted rejection may come from."""
+    tb = getattr(exc, "__traceback__", None)
+    while tb is not None:
+        q = getattr(tb.tb_frame.f_code, "co_qualname", tb.tb_frame.f_code.co_name)
+        if q == name or q.endswith("." + name):
+            return True
+        tb = tb.tb_next
+    return False
+
+
 def str_of_int(n):
     return str(n)
 
